@@ -70,3 +70,38 @@ Example C25_example :
   (match step f 10 init_state (create_op ps' None "" [] [] false "" false) with
    | SR _ (RErr EInsufficientFunds) => True | _ => False end).
 Proof. vm_compute. split; [reflexivity | exact I]. Qed.
+
+(* ---------- machine side: [feasible] IS what the Numscript machine decides on the script TxToScriptData generates ----------
+   Machine/TxScript.v models internal/controller/ledger/numscript.go:TxToScriptData (one `send $vm (source = $va
+   [allowing unbounded overdraft] | @world, destination = $va | @world)` per posting; equal accounts / monetaries share
+   a variable) and proves, for Sem.run (the machine semantics tied to compiler.Compile + vm.Machine by the tie `ns`):
+   for ANY naming of the variables that is injective (Go: va%d / vm%d), any force flag, any non-empty list of valid
+   postings and any store whose balances are those of the volumes table, the run yields exactly the submitted
+   postings (same order, zero amounts included, no metadata) when the in-order walk succeeds and fails with
+   insufficient funds otherwise. *)
+From LV Require Machine.Sem Machine.TxScript Machine.TxScriptCore.
+Theorem C25_machine_script : forall (nacc : string -> string) (nmon : string -> Z -> string),
+  (forall a b, nacc a = nacc b -> a = b) -> (forall a x b y, nmon a x = nmon b y -> a = b /\ x = y) ->
+  (forall a b x, nacc a <> nmon b x) ->
+  forall force ps vols s,
+  Forall (fun p => TxScript.valid_post (TxScriptCore.conv p)) ps -> ps <> [] ->
+  (forall k, Sem.store_balance s k = balance vols k) ->
+  (feasible force vols ps = true ->
+     exists r, Sem.run (TxScript.script_of nacc nmon force (map TxScriptCore.conv ps))
+                       (TxScript.given_of nacc nmon (map TxScriptCore.conv ps)) s = Sem.Ok r /\
+               Sem.all_postings r = map TxScriptCore.conv ps /\ Sem.rtx r = [] /\ Sem.racc r = []) /\
+  (feasible force vols ps = false ->
+     Sem.run (TxScript.script_of nacc nmon force (map TxScriptCore.conv ps))
+             (TxScript.given_of nacc nmon (map TxScriptCore.conv ps)) s = Sem.Err Sem.EInsufficient).
+Proof. exact TxScriptCore.tx_script_feasible. Qed.
+Print Assumptions C25_machine_script.
+
+(* non-vacuity of the machine side: the request of C25_example through the generated script *)
+Example C25_machine_example :
+  let P := fun s d a => {| Sem.psrc := s; Sem.pdst := d; Sem.passet := "USD"; Sem.pamt := a |} in
+  let ps := [P "world" "alice" 10; P "alice" "bob" 7; P "alice" "alice" 3; P "bob" "bob" 0] in
+  let ps' := [P "world" "alice" 10; P "alice" "bob" 7; P "alice" "world" 4] in
+  (match TxScriptCore.tx_run false ps {| Sem.st_bal := []; Sem.st_meta := [] |} with Sem.Ok r => Sem.all_postings r = ps | _ => False end) /\
+  TxScriptCore.tx_run false ps' {| Sem.st_bal := []; Sem.st_meta := [] |} = Sem.Err Sem.EInsufficient /\
+  (match TxScriptCore.tx_run true ps' {| Sem.st_bal := []; Sem.st_meta := [] |} with Sem.Ok r => Sem.all_postings r = ps' | _ => False end).
+Proof. vm_compute. repeat split; reflexivity. Qed.
